@@ -6,6 +6,7 @@ import os
 import pathlib
 import shutil
 import sys
+import tokenize
 from collections import defaultdict
 from collections.abc import Iterable
 from dataclasses import dataclass
@@ -126,11 +127,20 @@ class Change:  # ChangeSet
         source._check()
 
 
+def source_encoding(filename) -> str:
+    """The encoding of a python file (a coding cookie like `# -*- coding: latin-1 -*-` or utf-8)."""
+    with pathlib.Path(filename).open("rb") as file:
+        encoding, _ = tokenize.detect_encoding(file.readline)
+    # the byte order mark is handled by SourceFile
+    return "utf-8" if encoding == "utf-8-sig" else encoding
+
+
 class SourceFile:
     def __init__(self, filename: pathlib.Path):
         self.replacements: list[Replacement] = []
         self.filename = filename
-        self.source = self.filename.read_text("utf-8")
+        self.encoding = source_encoding(filename)
+        self.source = self.filename.read_text(self.encoding)
         # a byte order mark is no part of the python code
         # (it is not counted in the positions of the ast-nodes and tokens)
         self.bom = self.source.startswith("\ufeff")
@@ -138,7 +148,12 @@ class SourceFile:
             self.source = self.source[1:]
 
     def rewrite(self):
-        new_code = self.new_code().encode()
+        # characters which can not be encoded with the encoding of the file
+        # can only be part of the new string literals, where they can be escaped
+        new_code = self.new_code().encode(
+            self.encoding,
+            errors="strict" if self.encoding == "utf-8" else "backslashreplace",
+        )
         if self.bom:
             new_code = codecs.BOM_UTF8 + new_code
 
@@ -177,7 +192,7 @@ class SourceFile:
         self._check()
 
         # newline="" preserves the line endings (\r\n) of the file
-        with open(self.filename, encoding="utf-8", newline="") as file:
+        with open(self.filename, encoding=self.encoding, newline="") as file:
             code = file.read()
 
         if code.startswith("\ufeff"):
